@@ -31,6 +31,10 @@ type C14Case struct {
 	// target handle was opened: the target statement runs on a handle that has not merged
 	// that writer's version (e.g. a vacuum next to an unmerged sibling version)
 	Late *Stmt `json:"late,omitempty"`
+	// Continue (target txn): a statement that fails with a storage error does not end the
+	// transaction; the remaining statements run and the transaction is committed. Only
+	// single-row statements (a multi-row statement cut short keeps its first rows: K3)
+	Continue bool `json:"continue,omitempty"`
 }
 
 func genC14Case(t *rapid.T) C14Case {
@@ -48,6 +52,11 @@ func genC14Case(t *rapid.T) C14Case {
 	n := 1
 	if c.Target == "txn" {
 		n = rapid.IntRange(1, 3).Draw(t, "n")
+	}
+	if c.Target == "txn" && rapid.IntRange(0, 2).Draw(t, "continue") == 0 {
+		c.Continue = true
+		cfg.multiRow = false
+		n = rapid.IntRange(2, 4).Draw(t, "ncont")
 	}
 	if c.Target == "write" || c.Target == "txn" {
 		for i := 0; i < n; i++ {
@@ -77,6 +86,8 @@ type c14Result struct {
 	rows  Rows
 	after MSet // model contents if the statement took effect
 	acked bool
+	// skipped: statements of a continued transaction that failed with a storage error
+	skipped int
 }
 
 // c14Handle: a fresh read-write table on a copy of the bucket, client "tgt".
@@ -206,7 +217,10 @@ func (h *c14Handle) runTarget(c C14Case, view MSet, snaps []verSnap) c14Result {
 			}
 			q, args := s.SQL(t, "k")
 			err := h.conn.Exec(q, args...)
-			if cls := errClass(err); cls == "error" {
+			if cls := errClass(err); cls == "error" && explicit && c.Continue && len(s.Keys) == 1 {
+				res.skipped++
+				continue // the statement failed as a whole; the transaction goes on
+			} else if cls == "error" {
 				res.err = err
 				break
 			} else if cls != outcome {
@@ -382,7 +396,9 @@ func runC14(c C14Case, o *Obs) error {
 			h.close()
 			return fmt.Errorf("%s: %v", desc, res.err)
 		}
-		if md.name == "deadline" && res.err == nil && nreq > 0 {
+		if md.name == "deadline" && res.err == nil && res.skipped > 0 && res.after.Rows(wideCols).Equal(view.Rows(wideCols)) {
+			// every statement of the continued transaction failed: committing nothing needs no request
+		} else if md.name == "deadline" && res.err == nil && nreq > 0 {
 			h.close()
 			return fmt.Errorf("%s: the deadline is in the past and the statement needs the object store, yet it reports success", desc)
 		}
@@ -417,6 +433,15 @@ func runC14(c C14Case, o *Obs) error {
 		if !same.Equal(fresh) {
 			h.close()
 			return fmt.Errorf("%s: the refreshed connection and a fresh connection disagree.\nsame:\n%sfresh:\n%s", desc, same, fresh)
+		}
+		after := after
+		if res.skipped > 0 {
+			// a continued transaction: the statements that failed are wholly out
+			after = withLateOps(res.after)
+			o.Class("txn-continued-after-failed-statement")
+			if res.acked {
+				o.Class("txn-continued-and-committed")
+			}
 		}
 		isBefore, isAfter := fresh.Equal(before), fresh.Equal(after)
 		if !isBefore && !isAfter {
